@@ -35,6 +35,9 @@ type Case struct {
 	Ponder    bool  `json:"ponder,omitempty"`     // go ponder ... then ponderhit: the deadline armed at ponderhit is judged
 	PonderOpt bool  `json:"ponder_opt,omitempty"` // the Ponder option is switched on, but the go command is an ordinary timed one
 	Plies     int   `json:"plies,omitempty"`      // the blocking search sits this many plies below the root on the driver's board (as a real search does) while it waits
+	// Prev: arguments of earlier `go` commands of the same driver session (each answered at once by the mock and
+	// awaited before the next command). The limits of the judged `go` depend on its own clock state only.
+	Prev []string `json:"prev,omitempty"`
 }
 
 func limits(c Case) (bool, int64, int64) {
@@ -118,6 +121,7 @@ func (m *mock) Go(b *board.Board, opts ...search.Option) (chess.Score, move.Move
 	m.mu.Lock()
 	m.soft, m.got = o.SoftTime, true
 	m.start = time.Now()
+	block := m.block
 	m.mu.Unlock()
 	// a real search works on the board it is given: it sits some plies below the root most of the time
 	type made struct {
@@ -136,7 +140,7 @@ func (m *mock) Go(b *board.Board, opts ...search.Option) (chess.Score, move.Move
 	if m.started != nil {
 		close(m.started)
 	}
-	if m.block && o.Stop != nil {
+	if block && o.Stop != nil {
 		<-o.Stop
 		m.mu.Lock()
 		m.stopd = time.Since(m.start)
@@ -203,7 +207,7 @@ func driverCase(c Case, rec *evid.Rec) error {
 		return ponderCase(c, rec)
 	}
 	_, soft, hard := limits(c)
-	m := &mock{block: c.Block}
+	m := &mock{}
 	ses := eng.NewSession(uci.WithSearch(m))
 	if c.PonderOpt {
 		ses.Send("setoption name Ponder value true")
@@ -211,6 +215,16 @@ func driverCase(c Case, rec *evid.Rec) error {
 	if c.Stm == 1 {
 		ses.Send("position startpos moves e2e4")
 	}
+	for _, prev := range c.Prev {
+		ses.Send("go " + prev)
+		if _, ok := ses.Wait("bestmove", 30*time.Second); !ok {
+			fmt.Println("INFRA-ERROR the non-blocking mock search of an earlier go was not answered")
+			os.Exit(2)
+		}
+	}
+	m.mu.Lock()
+	m.block, m.got = c.Block, false
+	m.mu.Unlock()
 	var args []string
 	w, b, wi, bi := c.Remaining, c.OppTime, c.Inc, c.OppInc
 	if c.Stm == 1 {
@@ -222,6 +236,10 @@ func driverCase(c Case, rec *evid.Rec) error {
 	args = append(args, fmt.Sprintf("wtime %d btime %d winc %d binc %d", w, b, wi, bi))
 	ses.Send("go " + strings.Join(args, " "))
 	limit := 10 * time.Second
+	if c.Block && c.MoveTime == 0 {
+		// the hard deadline is never later than the remaining time; 2 s of slack for timers on a loaded machine
+		limit = min(limit, time.Duration(c.Remaining)*time.Millisecond+2*time.Second)
+	}
 	_, ok := ses.Wait("bestmove", limit)
 	if !ok && c.Block {
 		ses.Send("stop")
@@ -256,10 +274,26 @@ func driverCase(c Case, rec *evid.Rec) error {
 	return nil
 }
 
+// drawPrev draws the arguments of an earlier, conforming `go` command of the same session.
+func drawPrev(t *rapid.T) string {
+	switch gen.Draw(t, 0, 4, "prevkind") {
+	case 0:
+		return fmt.Sprintf("movetime %d", rapid.Int64Range(1, 10_000_000).Draw(t, "pmt"))
+	case 1:
+		return fmt.Sprintf("wtime %d btime %d winc %d binc %d", rapid.Int64Range(1, 10_000_000).Draw(t, "pw"), rapid.Int64Range(1, 10_000_000).Draw(t, "pb"), rapid.Int64Range(0, 100000).Draw(t, "pwi"), rapid.Int64Range(0, 100000).Draw(t, "pbi"))
+	case 2:
+		return fmt.Sprintf("wtime %d btime %d movestogo %d", rapid.Int64Range(1, 10_000_000).Draw(t, "pw"), rapid.Int64Range(1, 10_000_000).Draw(t, "pb"), rapid.Int64Range(1, 60).Draw(t, "pmtg"))
+	case 3:
+		return fmt.Sprintf("depth %d", rapid.IntRange(1, 20).Draw(t, "pd"))
+	default:
+		return fmt.Sprintf("nodes %d", rapid.IntRange(1, 100000).Draw(t, "pn"))
+	}
+}
+
 func TestC14(t *testing.T) {
 	evid.Main(t, "C14", func(rec *evid.Rec) {
 		margin := int64(uci.TimeSafetyMargin)
-		rec.Rule("exhaustive grid: remaining time 1..400 ms step 1, +-3 around the break points (margin, 2*margin, 4*margin, the points where 4*soft crosses remaining-margin for each increment), decades up to 10^12 (+-1); increments {0..100, decades to 10^9, remaining/8 +-1, remaining/2}; both colours; move time absent / {1, margin-1, margin, margin+1, 1000, 10^7}; opponent clock varied. Random elsewhere (rapid). Oracle = only what the property promises: hard > 0; hard <= remaining; remaining > margin => hard <= remaining - margin (margin read from uci.TimeSafetyMargin); with a move time soft == hard == movetime; changing only the opponent's time/increment does not change the hard deadline (nor the soft target under a move time). Driver leg: with a recording mock search and a fixed move time the SoftTime option passed equals the move time; with a blocking mock and a 40..120 ms clock the stop channel closes (10 s ceiling, three attempts); `go ponder` + `ponderhit` on a blocking mock that sits 0..2 plies below the root on the driver's board, with an increment far above the remaining time and a much larger opponent clock: the stop channel closes within the remaining time + 1.5 s slack (three attempts). Non-trivial = grid point where a clamp is active or a move time is set; distinct by (remaining, inc, movetime, colour)")
+		rec.Rule("exhaustive grid: remaining time 1..400 ms step 1, +-3 around the break points (margin, 2*margin, 4*margin, the points where 4*soft crosses remaining-margin for each increment), decades up to 10^12 (+-1); increments {0..100, decades to 10^9, remaining/8 +-1, remaining/2}; both colours; move time absent / {1, margin-1, margin, margin+1, 1000, 10^7}; opponent clock varied. Random elsewhere (rapid). Oracle = only what the property promises: hard > 0; hard <= remaining; remaining > margin => hard <= remaining - margin (margin read from uci.TimeSafetyMargin); with a move time soft == hard == movetime; changing only the opponent's time/increment does not change the hard deadline (nor the soft target under a move time). Driver leg: with a recording mock search and a fixed move time the SoftTime option passed equals the move time; with a blocking mock and a 40..120 ms clock the stop channel closes within the remaining time + 2 s slack (three attempts); half of the driver sessions (recording and blocking) have answered 1-3 earlier conforming go commands (move time, clocks with increment or movestogo, depth, nodes) on the same driver first, and the judged go must be unaffected by them; `go ponder` + `ponderhit` on a blocking mock that sits 0..2 plies below the root on the driver's board, with an increment far above the remaining time and a much larger opponent clock: the stop channel closes within the remaining time + 1.5 s slack (three attempts). Non-trivial = grid point where a clamp is active or a move time is set; distinct by (remaining, inc, movetime, colour)")
 		rec.Assume("hook uci.VerifTimeLimits (build tag verif) forwards to the unexported time control helpers")
 		shard, n := evid.Shard()
 		var rems []int64
@@ -331,6 +365,9 @@ func TestC14(t *testing.T) {
 			if gen.Chance(t, 1, 4, "mt") {
 				c.MoveTime = rapid.Int64Range(1, 100000).Draw(t, "mt")
 			}
+			for np := gen.Draw(t, 0, 4, "nprev") - 2; np > 0; np-- { // half of the sessions carry earlier go commands
+				c.Prev = append(c.Prev, drawPrev(t))
+			}
 			if rec.WantSample("driver") {
 				rec.Sample("driver", c)
 			}
@@ -342,6 +379,12 @@ func TestC14(t *testing.T) {
 		// blocking search: the deadline must fire at all (wall clock observation, generous ceiling, three attempts)
 		for i := 0; i < evid.Pick(2, 6); i++ {
 			c := Case{Remaining: 40 + int64((int(evid.Seed())+37*i)%81), Inc: 0, OppTime: 1000, OppInc: 0, Stm: i % 2, Driver: true, Block: true, PonderOpt: i%2 == 1}
+			// every second session has answered other go commands before (a long move time, a rich clock with a
+			// large increment, a depth search): nothing of them may survive into the judged command's deadline
+			if i%2 == 1 {
+				shd, _ := evid.Shard()
+				c.Prev = [][]string{{"movetime 60000"}, {"wtime 3600000 btime 3600000 winc 30000 binc 30000", "movetime 7000"}, {"depth 3", "movetime 4000", "nodes 100"}}[(i/2+int(evid.Seed())+shd)%3]
+			}
 			var err error
 			for attempt := 0; attempt < 3; attempt++ {
 				if err = driverCase(c, rec); err == nil {
